@@ -476,8 +476,16 @@ def _handler_rules(ctx, body, writer, is_request):
         for b2, t2 in body.terms():
             if t2["k"] == "switch":
                 d = norm(T.at_term(t2["discr"], b2))
-                if d[0] == "discr" and d[1][0] == "call" and d[1][1] == writer and d[1][3] == bb:
-                    ok_targets.extend(tgt for _, tgt in discr_edges(cfg, b2, 0))
+                if d[0] == "discr":
+                    # the result itself, or the result on its way through `.map_err(..)?` (Ok and Continue are both variant 0)
+                    x = norm(d[1])
+                    for _ in range(4):
+                        if x[0] == "call" and x[1] != writer and len(x[2]) >= 1 and (str(x[1]).endswith("::map_err") or (str(x[1]).endswith("::branch") and "Try" in str(x[1]))):
+                            x = norm(x[2][0])
+                        else:
+                            break
+                    if x[0] == "call" and x[1] == writer and x[3] == bb:
+                        ok_targets.extend(tgt for _, tgt in discr_edges(cfg, b2, 0))
         bad = []
         for tgt in ok_targets:
             r = cfg.reachable_from(tgt)
